@@ -256,11 +256,11 @@ what the model in this file transliterates. A structural edit of any of these fu
 check searching for a failing input. -/
 theorem C04_wiring :
     Sso.Generated.skel_sso_RefreshSession =
-      ["call:NewLogEntry", "if{", "return", "}", "call:redeemRefreshToken", "if{", "call:IsWithinGracePeriod", "if{", "call:Incr", "call:ExtendDeadline", "store:s.RefreshDeadline", "return", "}", "return", "}", "call:ValidateGroup", "if{", "call:IsWithinGracePeriod", "if{", "call:Incr", "call:ExtendDeadline", "store:s.RefreshDeadline", "return", "}", "return", "}", "if{", "call:New", "return", "}", "store:s.Groups", "store:s.AccessToken", "call:ExtendDeadline", "store:s.RefreshDeadline", "store:s.GracePeriodStart", "call:WithUser", "call:WithRefreshDeadline", "call:Info", "return"] ∧
+      ["if{", "return", "}", "call:redeemRefreshToken", "if{", "call:IsWithinGracePeriod", "if{", "call:ExtendDeadline", "store:s.RefreshDeadline", "return", "}", "return", "}", "call:ValidateGroup", "if{", "call:IsWithinGracePeriod", "if{", "call:ExtendDeadline", "store:s.RefreshDeadline", "return", "}", "return", "}", "if{", "call:New", "return", "}", "store:s.Groups", "store:s.AccessToken", "call:ExtendDeadline", "store:s.RefreshDeadline", "store:s.GracePeriodStart", "return"] ∧
     Sso.Generated.skel_sso_ValidateSessionState =
-      ["call:NewLogEntry", "call:Add", "call:String", "call:Encode", "call:Sprintf", "call:newRequest", "if{", "call:WithUser", "call:Error", "return", "}", "call:Set", "call:Set", "call:Do", "if{", "call:WithUser", "call:Error", "return", "}", "if{", "call:isProviderUnavailable", "call:IsWithinGracePeriod", "if{", "call:Incr", "call:ExtendDeadline", "store:s.ValidDeadline", "return", "}", "call:WithUser", "call:WithHTTPStatus", "call:Info", "return", "}", "call:ValidateGroup", "if{", "call:IsWithinGracePeriod", "if{", "call:Incr", "call:ExtendDeadline", "store:s.ValidDeadline", "return", "}", "call:WithUser", "call:Error", "return", "}", "if{", "call:WithUser", "call:WithAllowedGroups", "call:Info", "return", "}", "store:s.Groups", "call:ExtendDeadline", "store:s.ValidDeadline", "store:s.GracePeriodStart", "call:WithUser", "call:WithSessionValid", "call:Info", "return"] ∧
+      ["call:Add", "call:String", "call:Encode", "call:Sprintf", "call:newRequest", "if{", "return", "}", "call:Set", "call:Set", "call:Do", "if{", "return", "}", "if{", "call:isProviderUnavailable", "call:IsWithinGracePeriod", "if{", "call:ExtendDeadline", "store:s.ValidDeadline", "return", "}", "return", "}", "call:ValidateGroup", "if{", "call:IsWithinGracePeriod", "if{", "call:ExtendDeadline", "store:s.ValidDeadline", "return", "}", "return", "}", "if{", "return", "}", "store:s.Groups", "call:ExtendDeadline", "store:s.ValidDeadline", "store:s.GracePeriodStart", "return"] ∧
     Sso.Generated.skel_sso_ValidateGroup =
-      ["call:NewLogEntry", "call:WithUser", "call:WithAllowedGroups", "call:Info", "call:len", "call:len", "if{", "return", "}", "call:UserGroups", "if{", "return", "}", "range{", "range{", "if{", "call:append", "}", "}", "}", "return"] ∧
+      ["call:len", "call:len", "if{", "return", "}", "call:UserGroups", "if{", "return", "}", "range{", "range{", "if{", "call:append", "}", "}", "}", "return"] ∧
     Sso.Generated.skel_sso_redeemRefreshToken =
       ["call:Add", "call:Add", "call:Add", "call:String", "call:Encode", "call:NewBufferString", "call:newRequest", "if{", "return", "}", "call:Set", "call:Do", "if{", "return", "}", "call:ReadAll", "call:Close", "if{", "return", "}", "if{", "call:isProviderUnavailable", "if{", "}", "else{", "if{", "}", "else{", "call:String", "call:Errorf", "}", "}", "return", "}", "call:Unmarshal", "if{", "return", "}", "call:Duration", "return"] := by decide
 
